@@ -158,6 +158,27 @@ SymQCalls ==
     \cup {[C0 EXCEPT !.op = o, !.p = p, !.q = FreshQ] : o \in {"rename", "link"}, p \in QPaths}
 
 (***************************************************************************)
+(* Profile "enum" (C14): trees built by elementary calls, then Glob with   *)
+(* every pattern, WalkDir with every callback policy (SkipDir / SkipAll /  *)
+(* an error at every visit index) and the existence helpers.               *)
+(***************************************************************************)
+EnumBuild ==
+    {Mk("mkdir", p) : p \in Paths} \cup {Mk("writefile", p) : p \in Paths}
+    \cup {[Mk("symlink", AbsP(x)) EXCEPT !.q = RelP(<<y>>)] : x \in P1, y \in Names}
+    \cup {[C0 EXCEPT !.op = "chdir", !.p = WorkP]}
+GlobSegs == {"*", "?", "a", "b", "a*", "*b", "??", "[ab]", "[^a]", "\\a", "*a*"}
+GlobPatterns ==
+    {AbsP(<<"w", s1>>) : s1 \in GlobSegs} \cup {AbsP(<<"w", s1, s2>>) : s1 \in GlobSegs, s2 \in GlobSegs}
+    \cup {AbsP(<<"*", s1>>) : s1 \in {"*", "a"}} \cup {AbsP(<<"*", "*", s1>>) : s1 \in {"*", "b"}}
+    \cup {RelP(<<s1>>) : s1 \in GlobSegs} \cup {RelP(<<s1, s2>>) : s1 \in {"*", "a", "?"}, s2 \in {"*", "b", "a"}}
+EnumCalls ==
+    {[C0 EXCEPT !.op = "glob", !.p = p] : p \in GlobPatterns}
+    \cup {[C0 EXCEPT !.op = "walk", !.p = p, !.n = k, !.flag = <<a>>] : p \in {WorkP, RootP} \cup {AbsP(x) : x \in P1},
+                                                                         k \in 1..6, a \in {"SkipDir", "SkipAll", "Err"}}
+    \cup {[C0 EXCEPT !.op = "walk", !.p = p] : p \in PathsR}
+    \cup {[C0 EXCEPT !.op = o, !.p = p] : o \in {"exists", "direxists", "isdir", "isempty", "readdir"}, p \in PathsR}
+
+(***************************************************************************)
 (* Profile "nsseed": the namespace templates from configured, richer trees *)
 (* (a directory with content, a file with a second hard link outside its   *)
 (* directory, nested directories) - states that need 4-6 calls to build.   *)
@@ -202,10 +223,11 @@ Calls(s) ==
                  [] Profile = "nssym" -> NsCalls \cup SymCalls \cup OwnCalls
                  [] Profile = "handles" -> HandleProfileCalls(s)
                  [] Profile = "nsseed" -> NsCalls
+                 [] Profile = "enum" -> (IF Len(hist) < MaxLen - 1 THEN EnumBuild ELSE {}) \cup (IF Len(hist) >= 1 THEN EnumCalls ELSE {})
                  [] Profile = "symq" -> SymQCalls
                  [] Profile = "symchain" -> ChainCalls
                  [] OTHER -> NsCalls IN
-    IF Profile \in {"symq", "symchain"} THEN all ELSE {c \in all : ~Pruned(s, c)}
+    IF Profile \in {"symq", "symchain", "enum"} THEN all ELSE {c \in all : ~Pruned(s, c)}
 
 EdgeFile == IF "VERIF_EDGES" \in DOMAIN IOEnv THEN IOEnv.VERIF_EDGES ELSE ""
 GenImpl == IF "VERIF_IMPL" \in DOMAIN IOEnv THEN IOEnv.VERIF_IMPL ELSE "none"
